@@ -394,7 +394,7 @@ def run(ctx):
                                 for _ in range(8):
                                     if pz is None:
                                         break
-                                    if len(b.defs.get(pz["l"], [])) >= 2 and any((k, i, p)[:2] == list(elem)[0][:2] for (k, i, p) in root_ids(b, {"l": pz["l"], "p": []})):
+                                    if len(b.defs.get(pz["l"], [])) >= 2 and any(dd.bb in lp_ for dd in b.defs.get(pz["l"], []) for lp_ in b.loops().values() if e[0] in lp_):
                                         best = [set(elem)]
                                         break
                                     dz = b.single_def(pz["l"])
